@@ -96,3 +96,67 @@ def symformat(template, *args, **kw):
         out.append(symstr(a))
         out.append(p)
     return ''.join(out)
+
+
+# ---- comparing texts that contain holes -----------------------------------------------------------------
+import re as _re
+
+_HOLE = _re.compile(L + r'(\d+)' + R)
+
+
+def has_holes(s):
+    return isinstance(s, str) and L in s
+
+
+def tokens(text):
+    """[literal, hole-term, literal, hole-term, ..., literal]"""
+    out = []
+    pos = 0
+    for m in _HOLE.finditer(text):
+        out.append(text[pos:m.start()])
+        out.append(HOLES[int(m.group(1))])
+        pos = m.end()
+    out.append(text[pos:])
+    return out
+
+
+def term_of(token):
+    """'⟦k⟧' -> the symbolic term; a decimal literal -> int"""
+    m = _HOLE.fullmatch(token)
+    if m:
+        return HOLES[int(m.group(1))]
+    return int(token)
+
+
+def text_equal(a, b):
+    """literal parts equal as strings, paired holes equal as TERMS (decided by the solver).
+    Returns (ok, reason)."""
+    if not isinstance(a, str) or not isinstance(b, str):
+        return False, 'not text'
+    ta, tb = tokens(a), tokens(b)
+    if len(ta) != len(tb):
+        return False, f'different number of symbolic values ({len(ta) // 2} vs {len(tb) // 2})'
+    for i in range(len(ta)):
+        if i % 2 == 0:
+            if ta[i] != tb[i]:
+                # find first difference for the report
+                x, y = ta[i], tb[i]
+                j = 0
+                while j < min(len(x), len(y)) and x[j] == y[j]:
+                    j += 1
+                return False, f'text differs: ...{x[max(0, j - 30):j + 40]!r} vs ...{y[max(0, j - 30):j + 40]!r}'
+        else:
+            if not (ta[i] == tb[i]):
+                return False, f'a number in the text differs (near {ta[i - 1][-40:]!r})'
+    return True, ''
+
+
+def wrap_keep(real_wrap):
+    """textwrap.fill is pure layout; with placeholders (whose width is not the number's width)
+    line breaks would differ between two renderings of the same text, so text with holes is left
+    unwrapped on both sides of every comparison."""
+    def wrap(s):
+        if has_holes(s):
+            return s
+        return real_wrap(s)
+    return wrap
